@@ -672,6 +672,8 @@ def run(chk):
 
 
 MUTANTS = [
+    ('swap inserted instead of toggled', 'yastn/tensor/_einsum.py', '        z2.symmetric_difference_update({_canonical(edge_a, edge_b)})', '        z2.add(_canonical(edge_a, edge_b))', 'W8'),
+    ('inverse permutation in swap_gate(charge=)', 'yastn/tensor/_contractions.py', '        axes = tuple(a.trans[ax] for ax in axes)', '        axes = tuple(a.trans.index(ax) for ax in axes)', 'W7'),
     ("flag vector of length 1", "yastn/tensor/_contractions.py", "    fss = (True,) * nsym if a.config.fermionic is True else a.config.fermionic", "    fss = (True,) if a.config.fermionic is True else a.config.fermionic", "W2"),
     ("negate in place", "yastn/backend/backend_np.py", "    newdata = Adata.copy()\n    for slc in slices:\n        newdata[slice(*slc)] *= -1", "    newdata = Adata\n    for slc in slices:\n        newdata[slice(*slc)] *= -1", "W3"),
     ("select even blocks", "yastn/tensor/_contractions.py", "for slc, negate in zip(slices, tp) if negate)", "for slc, negate in zip(slices, tp) if not negate)", "W3"),
